@@ -263,6 +263,36 @@ CHECKS["C08"] = dict(
     note=COMMON_NOTE + " Equality of results between relabelled runs is not decided; model-supplied callbacks (potential, masses) are outside the package.",
 )
 
+# rules added after the fourth round of seeded changes (general rules; see DESIGN.md section 5)
+ROUND4 = {
+    "C01": "Also (R01.9): every read of the convergence flags judges the LAST pressure evaluation executed before it, and that evaluation is the one whose pressure is "
+           "tested / whose data are reported at that exit (def-use chains on the CFG); (R01.10): the detonation scan leaves its loop early only when the pressure at the "
+           "last probed point is positive, the top of the window was probed, or a solution was just stored.",
+    "C02": "Also (R02.9): the junction relations contain no new hard-wired absolute scale (np.isclose / bare tolerance on an energy density): dimension inference, "
+           "hydrodynamics modules.",
+    "C03": "Also (R03.10): every result of a root finder / minimiser / integrator stored in a local is read before it is overwritten (liveness on the CFG), and tiny "
+           "offsets of bracket ends point into the bracket.",
+    "C05": "Also (R05.7): tiny offsets of bracket ends point into the bracket; solver results held in locals are read; (R05.8) initial guesses carry no bare number where "
+           "a temperature is expected (a list display mixing quantities of one kind with a bare number is an absolute-scale site).",
+    "C10": "Also (R10.8): range bookkeeping of the free-energy / interpolation classes is per instance (no mutable class-level attribute is mutated in place).",
+    "C11": "Also (R11.7): results of root finders / minimisers stored in locals are read.",
+    "C12": "Also: finite-difference derivatives of the background apply the full derivative matrix to the full profile and restrict to interior points afterwards (R12.1); "
+           "the collision operator changes basis by the inverse-transpose rule (R12.9, shared with C14); no in-place update acts on a view of stored state (R12.10, alias "
+           "analysis over basic indexing / reshape / asarray / getter results).",
+    "C13": "Also (R13.9): no in-place update (augmented assignment, subscript store, out=) acts on an array aliased from the grid's cache, the background or a polynomial.",
+    "C15": "Also (R15.9): an enthalpy sign change inside the template's shooting bracket cuts the upper end; the template's initial guess passes an np.isnan test on every "
+           "path to the exact root solve; NaN guards never compare with np.nan; tiny bracket offsets point inward.",
+    "C17": "Also (R17.8): with endpoints=True the three getters pad the same ends of every direction (sequence patterns evaluated from the ast); (R17.9) no in-place update of "
+           "a cached array through a view.",
+    "C18": "Also (R18.8): both range masks of one out-of-bounds evaluation are computed before any call that may move the table range; the result buffer's dtype does not "
+           "depend on the input's (R18.2).",
+    "C19": "Also (R19.5): positions and coefficients are built from one exactly representable step h = (x + h) - x (def-use chains).",
+    "C20": "Also (R20.6): no default argument object escapes its call (potentials built without `integrals` do not share one Integrals object); (R20.7) the imaginary-part "
+           "handling is entered for strictly negative m^2 only, identically in the zero-temperature and the thermal piece.",
+}
+for _k, _v in ROUND4.items():
+    CHECKS[_k]["text"] = CHECKS[_k]["text"].rstrip() + " " + _v
+
 NOT_APPLICABLE = {}
 
 ENGINES = [
